@@ -14,10 +14,10 @@ LIFE = {
                 crashes=(0, 1), wf=0, rf=0),
     "C02": dict(extra=["wait_timeout"], focus=["Overlap", "Live"], models=["restart", "faults"], tmodels=["t_restart3", "t_faults2", "overlap"], fams=["base", "overlap", "amtless", "replay"],
                 crashes=(0, 1, 1), wf=1, rf=0, trf=1),
-    "C03": dict(models=["base_conf", "base_amtless", "restart"], tmodels=["t_restart3", "base_tot"], fams=["base", "amtless", "overlap", "other"],
+    "C03": dict(models=["base_conf", "base_amtless", "base_zero", "restart"], tmodels=["t_restart3", "base_tot"], fams=["base", "amtless", "overlap", "other"],
                 crashes=(0, 1), wf=0, rf=0, extra=["class"]),
     "C04": dict(models=["base_exp"], tmodels=["base_conf", "overlap"], fams=["base", "overlap"], crashes=(0,), wf=0, rf=0, heights=True),
-    "C05": dict(focus=["Overlap", "Live"], models=["overlap", "overlapc"], tmodels=["overlap3", "restart", "t_overlap2", "t_restart3"], fams=["overlap", "overlap3", "base"],
+    "C05": dict(focus=["Overlap", "Live"], models=["overlap", "overlapc"], tmodels=["overlap3", "restart", "t_overlap2", "t_restart3"], fams=["overlap", "overlap3", "base"], trf=1,
                 crashes=(0, 1, 1), wf=0, rf=0),
     "C06": dict(live=["live"], models=["base_conf", "faults"], tmodels=["base_exp", "base_tot", "t_faults2"], fams=["base", "amtless", "other", "overlap", "twohash"],
                 crashes=(0,), wf=1, rf=1, extra=["garbage", "class-raw", "e2e_burst"]),
@@ -27,7 +27,7 @@ LIFE = {
                 crashes=(0, 1), wf=1, rf=0),
     "C09": dict(models=["wedge", "faults"], tmodels=["t_faults2", "restart"], fams=["base", "overlap"], crashes=(0, 1, 1), wf=1, rf=0, probes=3),
     "C11": dict(clockback=True, extra=["restart_wait", "e2e_mpp"], models=["base_conf", "restart"], tmodels=["t_restart3", "base_exp"], fams=["base", "amtless"], crashes=(0, 1), wf=0, rf=0),
-    "C12": dict(models=["base_tot", "base_exp"], tmodels=["base_conf"], fams=["base", "amtless"], crashes=(0,), wf=0, rf=0),
+    "C12": dict(models=["base_tot", "base_exp", "base_zero"], tmodels=["base_conf"], fams=["base", "amtless"], crashes=(0,), wf=0, rf=0),
     "C13": dict(models=["base_foreign"], tmodels=["twohash"], fams=["other", "twohash"], crashes=(0,), wf=0, rf=0, extra=["class"]),
     "C10": dict(models=["base_foreign", "base_amtless"], tmodels=["base_conf"], fams=["other", "amtless"], crashes=(0,), wf=0, rf=0, extra=["class"]),
     "C15": dict(models=["provider"], tmodels=[], fams=["base"], crashes=(0,), wf=0, rf=0, direct=3, allrate=1),
@@ -121,6 +121,8 @@ def ev_to_step(ev, direct=False):
         return {"a": "height", "h": ev["h"]}
     if t == "crash":
         return {"a": "crash", "lose": len(ev["lost"]) > 0}
+    if t == "probe":
+        return {"a": "phase"}
     return None
 
 def schedules_from_tlc(name, workdir, rate, seed, timeout, limit, focus="Edge"):
